@@ -51,7 +51,9 @@ def run(ctx):
         else:
             ok = f.id == as_reader.id and kind == "assign" and x["rhs"]["rv"] == "use" and op_const(x["rhs"]["op"]) is False
             ctx.ob("C18.1", "flag-write|%s" % f.id, "after construction the flag is only ever cleared, and only by as_reader", ok, f.loc(bb))
-    ctx.floor("C18.1 flag writes", n, 2)
+    ctx.floor("C18.1 flag writes", n, 1)
+    clears_ = [1 for g_, b_, k_, x_ in facts.field_writes(REQ, FLAG) if g_.id == as_reader.id and k_ == "assign"]
+    ctx.ob("C18.1", "flag-cleared-by-as_reader", "as_reader clears the flag (so the interim response is sent once)", bool(clears_), "%s:%d" % (as_reader.file, as_reader.line))
     for f, bb, kind in facts.field_reads(REQ, FLAG):
         ctx.ob("C18.3", "flag-read|%s" % f.id, "only as_reader consults the flag (answering without asking for the body sends no interim response)", f.id == as_reader.id, f.loc(bb))
 
@@ -70,7 +72,12 @@ def run(ctx):
     rps = [b for b, t in f.calls() if call_matches(t, r"raw_print$")]
     flushes = [b for b, t in f.calls() if t.get("callee") == "std::io::Write::flush" or call_matches(t, r"as std::io::Write>::flush$|impl std::io::Write for .*>::flush$")]
     clears = [b for g, b, kind, x in facts.field_writes(REQ, FLAG) if g.id == f.id and kind == "assign"]
-    ctx.require(rps and flushes and clears, "C18.2: raw_print/flush/clear not found in as_reader (%d/%d/%d)" % (len(rps), len(flushes), len(clears)))
+    ctx.require(rps, "C18.2: raw_print not found in as_reader")
+    for nm_, bl_ in (("flush", flushes), ("clear of the flag", clears)):
+        if not bl_:
+            ctx.ob("C18.2", "%s|has-%s" % (f.id, nm_.split()[0]), "as_reader performs the %s" % nm_, False, "%s:%d" % (f.file, f.line))
+    if not (flushes and clears):
+        return {}
     rets = f.returns()
     for name, blocks in (("prints", rps), ("flushes", flushes), ("clears-flag", clears)):
         reach = f.reach([t_edge], blocked=set(blocks), unwind=False)
